@@ -1,4 +1,5 @@
 import SigHook.Props.Packed
+import SigHook.Model.Skel
 import SigHook.Model.ChannelGen
 import SigHook.Props.C07
 /-!
@@ -144,5 +145,13 @@ theorem C06_fifo_transitions {scripts : List (List Cmd)} {s s' : Sys} {t : Nat} 
       have := (tbl_enq l hl idx hO.1 hni).1
       rw [hcur, this] at he; injection he with he; exact he.symm
     | _ => simp at hobs
+
+
+/-- **C06.send_recv_skeleton** — tie to the source (regenerated): `send` = dequeue from `empty`,
+write the cell, enqueue to `full`; `recv` = dequeue from `full`, take the cell, enqueue to `empty` -
+the order of the model's program counters. -/
+theorem C06_send_recv_skeleton :
+    skelOf chanFile "send" = ["dequeue.empty", "cell.write", "enqueue.full"] ∧
+    skelOf chanFile "recv" = ["dequeue.full", "cell.take", "enqueue.empty"] := by decide
 
 end SigHook.Channel
